@@ -141,18 +141,18 @@ type fnCtx struct {
 }
 
 type lsSummary struct {
-	key     fnCtx
-	consts  map[int]bool
-	entry   lockset
-	exit    lockset         // lock set at return (meet over returns), nil until computed
-	acq     map[string]byte // locks possibly acquired (transitively); 'W' dominates
-	callers map[fnCtx]bool
-	rootCtx bool
-	live    bool
-	late    bool
-	parent  *lsSummary // first discovered caller context (diagnostics)
+	key       fnCtx
+	consts    map[int]bool
+	entry     lockset
+	exit      lockset         // lock set at return (meet over returns), nil until computed
+	acq       map[string]byte // locks possibly acquired (transitively); 'W' dominates
+	callers   map[fnCtx]bool
+	rootCtx   bool
+	live      bool
+	late      bool
+	parent    *lsSummary // first discovered caller context (diagnostics)
 	parentPos token.Pos
-	queued  bool
+	queued    bool
 }
 
 type lockEdge struct {
@@ -182,7 +182,7 @@ type LockAnalysis struct {
 	roots     func(f *ssa.Function) bool
 	recording bool
 	syncHO    map[*ssa.Function]map[int]bool // module funcs that call param i synchronously only
-	skipCtx   map[string]string             // funcKey|sig -> reason: contexts not analysed (documented-unsafe)
+	skipCtx   map[string]string              // funcKey|sig -> reason: contexts not analysed (documented-unsafe)
 	reached   map[*ssa.Function]bool
 }
 
